@@ -207,11 +207,20 @@ def num_of(v):
     return dec(v)
 
 
-def gen_side(rng, gd, axis, rank):
+# `normal_*` conditions only determine the ghost cells of the normal component: they are generated only together
+# with operators that read nothing else (otherwise the result contains uninitialised memory, see notes/C04.md)
+NORMAL_OK = {"divergence", None}
+
+
+def has_normal(bc):
+    return any(not isinstance(s, str) and s["type"].startswith("normal_") for s in bc.values())
+
+
+def gen_side(rng, gd, axis, rank, normal_ok=True):
     """one local condition with a homogeneous value (variants make it inhomogeneous)"""
     kinds = ["dirichlet", "neumann", "mixed", "curvature"]
     kind = rng.choice(kinds)
-    normal = rank >= 1 and rng.random() < 0.3
+    normal = normal_ok and rank >= 1 and rng.random() < 0.3
     alias = ("normal_" if normal else "") + KIND_ALIAS[kind]
     s = {"type": alias, "value": gen_number(rng)}
     if kind == "mixed":
@@ -220,14 +229,14 @@ def gen_side(rng, gd, axis, rank):
     return s
 
 
-def gen_bc(rng, gd, rank):
+def gen_bc(rng, gd, rank, op=None):
     spec = {}
     for ax, name in enumerate(axes_of(gd)):
         if gd["periodic"][ax]:
             spec[name] = rng.choice(["periodic", "periodic", "anti-periodic"])
         else:
-            lo = gen_side(rng, gd, ax, rank)
-            hi = copy.deepcopy(lo) if rng.random() < 0.3 else gen_side(rng, gd, ax, rank)
+            lo = gen_side(rng, gd, ax, rank, op in NORMAL_OK)
+            hi = copy.deepcopy(lo) if rng.random() < 0.3 else gen_side(rng, gd, ax, rank, op in NORMAL_OK)
             spec[name + "-"], spec[name + "+"] = lo, hi
     return spec
 
@@ -240,7 +249,7 @@ def gen_req(rng):
         kwargs.append(["method", ["s", rng.choice(["central", "forward", "backward"])]])
     if op == "gradient_squared" and rng.random() < 0.4:
         kwargs.append(["central", ["b", rng.random() < 0.5]])
-    return {"grid": gd, "op": op, "rank": rank, "bc": gen_bc(rng, gd, rank), "dtype": rng.choice(DTYPES),
+    return {"grid": gd, "op": op, "rank": rank, "bc": gen_bc(rng, gd, rank, op), "dtype": rng.choice(DTYPES),
             "kwargs": kwargs, "korder": 0}
 
 
@@ -305,7 +314,7 @@ def apply_variant(rng, req, v):
             b["bc"][ax[0] + s], b["bc"][ax[1] + s] = b["bc"][ax[1] + s], b["bc"][ax[0] + s]
         return b
     if v == "normal":
-        if not keys or b["rank"] < 1:
+        if not keys or b["rank"] < 1 or b["op"] not in NORMAL_OK:
             return None
         k = rng.choice(keys)
         t = b["bc"][k]["type"]
@@ -451,8 +460,8 @@ def apply_variant(rng, req, v):
         if gd["periodic"][ax]:
             gd["periodic"][ax] = False
             b["bc"].pop(name)
-            b["bc"][name + "-"] = gen_side(rng, gd, ax, b["rank"])
-            b["bc"][name + "+"] = gen_side(rng, gd, ax, b["rank"])
+            b["bc"][name + "-"] = gen_side(rng, gd, ax, b["rank"], b["op"] in NORMAL_OK)
+            b["bc"][name + "+"] = gen_side(rng, gd, ax, b["rank"], b["op"] in NORMAL_OK)
         else:
             gd["periodic"][ax] = True
             b["bc"].pop(name + "-")
@@ -460,7 +469,7 @@ def apply_variant(rng, req, v):
             b["bc"][name] = "periodic"
         return b
     if v == "op":
-        same_rank = [o for o, r in ops_of(gd) if r == b["rank"] and o != b["op"]]
+        same_rank = [o for o, r in ops_of(gd) if r == b["rank"] and o != b["op"] and (o in NORMAL_OK or not has_normal(b["bc"]))]
         if not same_rank:
             return None
         b["op"] = rng.choice(same_rank)
@@ -1479,7 +1488,7 @@ def gen_history(rng, hist, jit=False):
         r = rng.random()
         if r < 0.35:
             opn, rank = rng.choice(ops_of(gd))
-            return {"op": "make_operator", "grid": gi, "operator": opn, "bc": gen_bc(rng, gd, rank), "backend": rng.choice(backends), "seed": seed()}
+            return {"op": "make_operator", "grid": gi, "operator": opn, "bc": gen_bc(rng, gd, rank, opn), "backend": rng.choice(backends), "seed": seed()}
         if r < 0.5:
             rank = rng.choice([0, 1])
             return {"op": "ghost_setter", "grid": gi, "bc": gen_bc(rng, gd, rank), "rank": rank, "backend": rng.choice(["numba", "numpy"]), "seed": seed()}
